@@ -25,6 +25,13 @@ class SchemaReader:
         self.depth = 0
         self.verenv = {}
 
+    def vec_items_env(self, n, env):
+        """(item, environment at the time the item was pushed) - None where the items are not from a simulated push sequence"""
+        pn = peel_block(peel(n))
+        if pn.get("k") == "Var" and ("vec", pn["v"]) in env:
+            return list(env[("vec", pn["v"])])
+        return [(it, None) for it in self.vec_items(n, env)]
+
     def vec_items(self, n, env):
         pn = peel_block(peel(n))
         if pn.get("k") == "Block" and pn.get("e") is not None:
@@ -147,6 +154,10 @@ class SchemaReader:
             v = self.lit(n["e"], env)
             bits = {"u8": 8, "u16": 16, "u32": 32, "u64": 64, "usize": 64}.get(n.get("ty"))
             return v if v is None or bits is None else v & ((1 << bits) - 1)
+        if n.get("k") == "Call" and (callee(n) or "").endswith("::len") and n.get("args"):
+            tv = peel(n["args"][0])
+            if tv.get("k") == "Var" and ("vec", tv["v"]) in env:
+                return len(env[("vec", tv["v"])])       # elements pushed so far (the snapshot taken when this element was pushed)
         v = self.an.val(n, {"$ver": self.ver, "$tsub": self.tsub, "$guards": {}})
         if v and v[0] == "int":
             return v[1]
@@ -283,9 +294,9 @@ class SchemaReader:
                 if w is None:
                     raise Undecided("discriminant_size")
                 alts = []
-                for vr in self.vec_items(en["args"][1], env):
+                for vr, venv in self.vec_items_env(en["args"][1], env):
                     vr = self.resolve(vr, env)
-                    d = self.lit(self.field(vr, "discriminant"), env)
+                    d = self.lit(self.field(vr, "discriminant"), venv or env)
                     if d is None:
                         raise Undecided("discriminant")
                     alts.append(seq(ev(("B", w, ("in", frozenset([d])), "LE")), self.fields_lang(self.field(vr, "fields"), env)))
@@ -294,9 +305,9 @@ class SchemaReader:
             if w is None:
                 raise Undecided("discriminant_size")
             alts = []
-            for vr in self.vec_items(self.field(en, "variants"), env):
+            for vr, venv in self.vec_items_env(self.field(en, "variants"), env):
                 vr = self.resolve(vr, env)
-                d = self.lit(self.field(vr, "discriminant"), env)
+                d = self.lit(self.field(vr, "discriminant"), venv or env)
                 if d is None:
                     raise Undecided("discriminant")
                 alts.append(seq(ev(("B", w, ("in", frozenset([d])), "LE")), self.fields_lang(self.field(vr, "fields"), env)))
